@@ -4,9 +4,12 @@ import (
 	"context"
 	"sort"
 	"sync"
+	"sync/atomic"
 	"time"
 
+	"github.com/spikeekips/mitum/base"
 	isaacdatabase "github.com/spikeekips/mitum/isaac/database"
+	"github.com/spikeekips/mitum/util/encoder"
 
 	"mitumverif/internal/h"
 )
@@ -37,7 +40,141 @@ type inflight struct {
 type forcer struct {
 	w     *world
 	db    *isaacdatabase.TempPool
+	pe    *parkEnc
 	calls map[int]*inflight // parked callers
+}
+
+// parkEnc is the encoder handed to the pool. SetOperation checks whether the operation's
+// record exists, marshals the operation with this encoder and writes its records: a store
+// of an operation that has a gate is parked in Marshal, i.e. between check and write.
+type parkEnc struct {
+	encoder.Encoder
+	mu    sync.Mutex
+	gates map[string]*setGate // operation hash -> gate
+}
+
+type setGate struct {
+	arrived chan struct{}
+	tickets []chan struct{} // one per parked store, in the order of arrival
+}
+
+func (p *parkEnc) Marshal(v interface{}) ([]byte, error) {
+	if op, ok := v.(base.Operation); ok {
+		p.mu.Lock()
+		g := p.gates[op.Hash().String()]
+		var ch chan struct{}
+		if g != nil {
+			ch = make(chan struct{})
+			g.tickets = append(g.tickets, ch)
+		}
+		p.mu.Unlock()
+		if g != nil {
+			g.arrived <- struct{}{}
+			<-ch
+		}
+	}
+	return p.Encoder.Marshal(v)
+}
+
+// serialised: the pool did not let a second store of the same operation past its check
+// while the first was parked before its write (it checks and writes under a lock): later
+// Set2 steps wait only briefly for the second store.
+var serialised atomic.Bool
+
+// set2 makes two overlapping SetOperation calls of one operation: both are started, the
+// controller waits until both are parked between check and write (or until it is clear
+// that the pool lets only one in), lets one write and return, then the other.
+func (fc *forcer) set2(evs []event, s stepT) ([]event, bool) {
+	o := fc.w.op(s.Op)
+	g := &setGate{arrived: make(chan struct{}, 2)}
+	fc.pe.mu.Lock()
+	fc.pe.gates[o.Hash().String()] = g
+	fc.pe.mu.Unlock()
+	done := make(chan event, 2)
+	for k := 1; k <= 2; k++ {
+		evs = append(evs, event{"a": "SetB", "k": k, "op": parseOp(s.Op)})
+		go func(k int) {
+			var ret bool
+			var err error
+			pn := h.Catch(func() { ret, err = fc.db.SetOperation(context.Background(), o) })
+			ev := event{"a": "SetE", "k": k, "op": parseOp(s.Op), "ret": ret, "panic": pn != "", "err": err != nil}
+			if pn != "" || err != nil {
+				ev["msg"] = firstLine(pn, err)
+			}
+			done <- ev
+		}(k)
+	}
+	stop := false
+	arrived, returned := 0, 0
+	collect := func(ev event) {
+		returned++
+		evs = append(evs, ev)
+		if ev["panic"].(bool) || ev["err"].(bool) {
+			stop = true
+		}
+	}
+	grace := 2 * time.Second
+	if serialised.Load() {
+		grace = 2 * time.Millisecond
+	}
+	for arrived+returned < 2 {
+		var timer <-chan time.Time
+		if arrived > 0 {
+			timer = time.After(grace) // one store is parked: does the pool let the other one in?
+		} else {
+			timer = time.After(hangTimeout)
+		}
+		select {
+		case <-g.arrived:
+			arrived++
+		case ev := <-done:
+			collect(ev)
+		case <-timer:
+			if arrived == 0 {
+				return append(evs, event{"a": "Hang", "at": "set2"}), true
+			}
+			serialised.Store(true)
+			goto release
+		}
+	}
+	if arrived == 2 {
+		serialised.Store(false)
+	}
+release:
+	// release the parked stores one at a time, in the order the schedule names (W = 1: the
+	// store that arrived last writes first)
+	{
+		closed := map[int]bool{}
+		for returned < 2 {
+			fc.pe.mu.Lock()
+			pick := -1
+			for i := range g.tickets {
+				if !closed[i] && (pick < 0 || s.W == 1) {
+					pick = i
+				}
+			}
+			var ch chan struct{}
+			if pick >= 0 {
+				ch = g.tickets[pick]
+				closed[pick] = true
+			}
+			fc.pe.mu.Unlock()
+			if ch != nil {
+				close(ch)
+			}
+			select {
+			case ev := <-done:
+				collect(ev)
+			case <-g.arrived: // the store that was kept out arrives now: released in the next round
+			case <-time.After(hangTimeout):
+				return append(evs, event{"a": "Hang", "at": "set2-release"}), true
+			}
+		}
+	}
+	fc.pe.mu.Lock()
+	delete(fc.pe.gates, o.Hash().String())
+	fc.pe.mu.Unlock()
+	return evs, stop
 }
 
 func (fc *forcer) lowest() int {
@@ -136,23 +273,40 @@ func (w *world) runFree(db *isaacdatabase.TempPool, b *behT) []event {
 		evs = append(evs, ev)
 		mu.Unlock()
 	}
+	// one store of setter k, logged as SetB k .. SetE k; false: it panicked or failed
+	store := func(s stepT, k int) bool {
+		o := w.op(s.Op)
+		var ret bool
+		var err error
+		log(event{"a": "SetB", "k": k, "op": parseOp(s.Op)})
+		pn := h.Catch(func() { ret, err = db.SetOperation(context.Background(), o) })
+		ev := event{"a": "SetE", "k": k, "op": parseOp(s.Op), "ret": ret, "panic": pn != "", "err": err != nil}
+		if pn != "" || err != nil {
+			ev["msg"] = firstLine(pn, err)
+		}
+		log(ev)
+		return pn == "" && err == nil
+	}
+	// a Set2 step: two stores of the operation at once (unforced)
+	stores := func(s stepT) bool {
+		if s.A != "Set2" {
+			return store(s, 1)
+		}
+		ok2 := make(chan bool, 1)
+		go func() { ok2 <- store(s, 2) }()
+		ok1 := store(s, 1)
+		return <-ok2 && ok1
+	}
 	var sets []stepT
 	calls := map[int][]stepT{}
 	for _, s := range b.Steps {
 		switch s.A {
-		case "Set":
+		case "Set", "Set2":
 			if len(calls) == 0 {
 				// stores the walk makes before its first call are made before the race starts
-				o := w.op(s.Op)
-				var ret bool
-				var err error
-				pn := h.Catch(func() { ret, err = db.SetOperation(context.Background(), o) })
-				ev := event{"a": "Set", "op": parseOp(s.Op), "ret": ret, "panic": pn != "", "err": err != nil}
-				if pn != "" || err != nil {
-					ev["msg"] = firstLine(pn, err)
-					return append(evs, ev)
+				if !stores(s) {
+					return evs
 				}
-				evs = append(evs, ev)
 				waitTick()
 				continue
 			}
@@ -168,19 +322,8 @@ func (w *world) runFree(db *isaacdatabase.TempPool, b *behT) []event {
 	go func() {
 		defer wg.Done()
 		<-start
-		ctx := context.Background()
 		for _, s := range sets {
-			o := w.op(s.Op)
-			var ret bool
-			var err error
-			log(event{"a": "SetB", "op": parseOp(s.Op)})
-			pn := h.Catch(func() { ret, err = db.SetOperation(ctx, o) })
-			ev := event{"a": "SetE", "op": parseOp(s.Op), "ret": ret, "panic": pn != "", "err": err != nil}
-			if pn != "" || err != nil {
-				ev["msg"] = firstLine(pn, err)
-			}
-			log(ev)
-			if pn != "" || err != nil {
+			if !stores(s) {
 				return
 			}
 			waitTick()
